@@ -99,6 +99,32 @@ static std::vector<uint8_t> build_structured(FuzzedDataProvider &fdp) {
         fn.code_length = (uint32_t)code.size();
         nvm_add_function(m, &fn);
     }
+    // table sizes around the growth steps of the loader's own arrays (it re-grows them independently of nvm_add_*)
+    static const int COUNTS[] = {0, 0, 0, 0, 1, 2, 7, 8, 9, 15, 16, 17, 31, 32, 33, 34, 63, 64, 65, 100, 127, 128, 129, 255, 256, 257};
+    const size_t NCOUNTS = sizeof COUNTS / sizeof COUNTS[0];
+    int nimp = COUNTS[fdp.ConsumeIntegralInRange<size_t>(0, NCOUNTS - 1)];
+    for (int i = 0; i < nimp; i++) {
+        uint8_t ptypes[4] = {TAG_INT, TAG_STRING, TAG_FLOAT, TAG_BOOL};
+        nvm_add_import(m, name_main, name_main, (uint16_t)(i % 4), (uint8_t)(i % 2 ? TAG_INT : TAG_VOID), ptypes);
+    }
+    int xstr = COUNTS[fdp.ConsumeIntegralInRange<size_t>(0, NCOUNTS - 1)];
+    for (int i = 0; i < xstr; i++) {
+        char b[16];
+        int n = snprintf(b, sizeof b, "s%d", i);
+        nvm_add_string(m, b, (uint32_t)n);
+    }
+    int xfn = COUNTS[fdp.ConsumeIntegralInRange<size_t>(0, NCOUNTS - 1)];
+    for (int i = 0; i < xfn; i++) {
+        static const uint8_t ret1[1] = {OP_RET};
+        NvmFunctionEntry fn;
+        memset(&fn, 0, sizeof fn);
+        fn.name_idx = name_main;
+        fn.code_offset = nvm_append_code(m, ret1, 1);
+        fn.code_length = 1;
+        nvm_add_function(m, &fn);
+    }
+    int xdbg = COUNTS[fdp.ConsumeIntegralInRange<size_t>(0, NCOUNTS - 1)];
+    for (int i = 0; i < xdbg; i++) nvm_add_debug_entry(m, (uint32_t)i, (uint32_t)(i + 1));
     m->header.flags = NVM_FLAG_HAS_MAIN;
     m->header.entry_point = fdp.ConsumeIntegralInRange<uint32_t>(0, 1) ? 0 : fdp.ConsumeIntegralInRange<uint32_t>(0, 5);
     uint32_t size = 0;
